@@ -899,6 +899,8 @@ var parOps = map[string]bool{"ins": true, "del": true, "delmin": true, "delmax":
 // in script order, all at the same time. Handles are isolated from each other (that is the property), so each
 // line's result is independent of the interleaving; afterwards every handle is compared with its reference.
 func (w *world) runPar(lines []string) []string {
+	lineBegin("parbegin … parend (" + strings.Join(lines, "; ") + ")") // for the worker's watchdog
+	defer lineEnd()
 	outs := make([]string, len(lines))
 	groups := map[int][]int{}
 	for i, l := range lines {
@@ -959,6 +961,18 @@ func (w *world) runPar(lines []string) []string {
 	return outs
 }
 
+// expectedPanic: the one call the model itself answers with a panic — a negative limit handed to the wrapper's scans
+// (`make` with a negative capacity; outside the property's domain, modelled as coded).
+func expectedPanic(l string) bool {
+	f := strings.Fields(l)
+	if len(f) == 5 && f[0] == "wscan" {
+		if n, err := strconv.ParseInt(f[4], 10, 64); err == nil && n < 0 {
+			return true
+		}
+	}
+	return false
+}
+
 // runCase executes a script; never panics. A script that does not finish within the wall-clock limit is a harness
 // error (exit 2), never a verdict.
 func runCase(c corr.Case) corr.Result {
@@ -977,8 +991,14 @@ func runCase(c corr.Case) corr.Result {
 						fatalExit(hf.msg) // quiescence / termination could not be established: a harness error, never a verdict
 					}
 					outs = append(outs, "panic")
+					if !expectedPanic(l) {
+						// an API call on a valid input must return: any other panic is a violation with this script as replay
+						w.hit("impl:api-call-panics", fmt.Sprintf("`%s` panicked: %v", strings.TrimSpace(l), e))
+					}
 				}
 			}()
+			lineBegin(l)
+			defer lineEnd()
 			outs = append(outs, w.line(l))
 		}
 		for i := 0; i < len(c.Lines); i++ {
